@@ -14,6 +14,7 @@ fn main() {
     let engine = args[1].clone();
     let mut ctx = Ctx { seed: 1, shard: 0, nshards: 1, tier: Tier::Quick, replay: None, build: "release".into(), scale: 1.0, arg: None, witness: None };
     let mut out: Option<String> = None;
+    let mut child_report = false;
     let mut i = 2;
     while i < args.len() {
         let v = args.get(i + 1).cloned();
@@ -27,6 +28,7 @@ fn main() {
             "--scale" => ctx.scale = v.unwrap().parse().unwrap(),
             "--arg" => ctx.arg = v,
             "--out" => out = v,
+            "--child-report" => child_report = true,
             "--witness" => {
                 let txt = std::fs::read_to_string(v.unwrap()).expect("witness file");
                 let js = mwv::json::parse(&txt).expect("witness json");
@@ -45,6 +47,15 @@ fn main() {
         }
     };
     let js = rep.to_json(400_000).to_string();
+    if child_report {
+        let so = std::io::stdout();
+        let mut so = so.lock();
+        so.write_all(b"R ").unwrap();
+        so.write_all(js.as_bytes()).unwrap();
+        so.write_all(b"\n").unwrap();
+        so.flush().unwrap();
+        return;
+    }
     match out {
         Some(path) => {
             let tmp = format!("{}.tmp", path);
